@@ -52,11 +52,54 @@ def layout_text(dims, offset):
     return ", ".join(parts) + (f", offset: {offset}" if offset else "")
 
 
+def memref_type_text(case):
+    lay = "" if case["dims"] is None else f", #tsl.tsl<{layout_text(case['dims'], case['offset'])}>"
+    return (f"memref<{'x'.join('?' if s is None else str(s) for s in case['tshape'])}x{case['el']}{lay}, "
+            f"\"{case.get('space', 'L1')}\">")
+
+
+def eval_index_ops(ops, env=None):
+    """Evaluate a list of arith index ops in Z; returns the environment (SSA value -> int)."""
+    from xdsl.dialects import arith
+    env = {} if env is None else env
+    for op in ops:
+        if isinstance(op, arith.ConstantOp):
+            env[op.result] = op.value.value.data
+        elif isinstance(op, arith.MuliOp):
+            env[op.result] = env[op.lhs] * env[op.rhs]
+        elif isinstance(op, arith.AddiOp):
+            env[op.result] = env[op.lhs] + env[op.rhs]
+        elif isinstance(op, arith.SubiOp):
+            env[op.result] = env[op.lhs] - env[op.rhs]
+        elif isinstance(op, arith.DivUIOp):
+            env[op.result] = env[op.lhs] // env[op.rhs]
+        else:
+            raise ValueError(f"unexpected op {op.name} in the layout's bound/step ops")
+    return env
+
+
+def layout_byte_steps(case, rt):
+    """The byte strides the compiled code uses for this layout at run time: the layout attribute's own
+    get_bound_ops / get_step_ops(in_bytes=True) (what the DMA and memref lowering call), built on constant
+    shape operands and evaluated. Independent of how AllocOpRewrite happens to compute the size.
+    Returns steps[dim][depth]."""
+    from xdsl.dialects import arith, test
+    from xdsl.dialects.builtin import IndexType
+    from xdsl.parser import Parser
+    ty = Parser(snaxrun.ctx(), memref_type_text(case)).parse_attribute()
+    lay = ty.layout
+    shape_ops = [arith.ConstantOp.from_int_and_width(n, IndexType()) for n in rt]
+    ops1, bound_ops = lay.get_bound_ops(list(shape_ops))
+    mem = test.TestOp(result_types=[ty])
+    ops2, step_ops = lay.get_step_ops(bound_ops, mem.results[0], in_bytes=True)
+    env = eval_index_ops(shape_ops + ops1 + ops2)
+    return [[env[step_ops[(d, k)].results[0]] for k in range(len(t))] for d, t in enumerate(case["dims"][:len(rt)])]
+
+
 def size_src(case):
     tshape = case["tshape"]
     ndyn = sum(1 for s in tshape if s is None)
-    lay = "" if case["dims"] is None else f", #tsl.tsl<{layout_text(case['dims'], case['offset'])}>"
-    ty = f"memref<{'x'.join('?' if s is None else str(s) for s in tshape)}x{case['el']}{lay}, \"{case.get('space', 'L1')}\">"
+    ty = memref_type_text(case)
     lines = ["builtin.module {"]
     for i in range(ndyn):
         lines.append(f'  %d{i} = "test.op"() : () -> index')
@@ -116,6 +159,9 @@ def gen_size_case(rng, big=False):
         rt = [s if s is not None else rng.choice([1, 2, 7]) for s in tshape]
         return {"kind": "size", "el": el, "dims": None, "offset": 0, "tshape": tshape, "rt": rt,
                 "space": rng.choice(["L1", "L1", "L1", "L3"])}
+    # deliberate family: fully static DENSE layouts (a permutation of a contiguous buffer: no gaps, no `?`) that
+    # carry a non-zero layout offset -- the offset is the only thing that makes them larger than prod(shape)*el
+    dense = rng.random() < 0.15
     tb = [[rng.choice([1, 2, 2, 3, 4, 8] if not big else [2, 3, 4, 8, 16]) for _ in range(rng.choice([1, 2, 2, 3]))]
           for _ in range(rank)]
     # steps: a random nesting order of all (dim, depth) positions with random gaps (never overlapping)
@@ -125,8 +171,8 @@ def gen_size_case(rng, big=False):
     step = {}
     for (d, k) in pos:
         step[(d, k)] = cur
-        cur *= tb[d][k] * rng.choice([1, 1, 1, 2, 3])
-    dyn_dims = [d for d in range(rank) if rng.random() < 0.3]
+        cur *= tb[d][k] * (1 if dense else rng.choice([1, 1, 1, 2, 3]))
+    dyn_dims = [] if dense else [d for d in range(rank) if rng.random() < 0.3]
     dims = []
     tshape = []
     rt = []
@@ -151,12 +197,14 @@ def gen_size_case(rng, big=False):
             s = step[(d, k)]
             # steps above a dynamic bound cannot be static in a real layout: make them `?` (mostly)
             dyn_below = any(dd in dyn_dims and step[(dd, 0)] < s for dd in range(rank))
-            if (dyn_below and rng.random() < 0.85) or rng.random() < 0.03:
+            if not dense and ((dyn_below and rng.random() < 0.85) or rng.random() < 0.03):
                 s = None
             t.append([s, None if (d in dyn_dims and k == 0) else tb[d][k]])
         dims.append(t)
-    offset = rng.choice([0, 0, 0, 1, 5, 64])
+    offset = rng.choice([1, 4, 5, 16, 64, 0]) if dense else rng.choice([0, 0, 0, 1, 5, 64])
     case = {"kind": "size", "el": el, "dims": dims, "offset": offset, "tshape": tshape, "rt": rt, "space": "L1"}
+    if dense:
+        return case
     r = rng.random()
     if r < 0.02 and rank >= 1 and len(dims[0]) > 1:
         case["dims"][0][1][1] = None  # inner dynamic bound: AssertionError
@@ -494,7 +542,7 @@ class C11(Prop):
         "the DMA and xDSL's FixedBitwidthType.size); sub-byte packing and power-of-two padding (i20 in 4 bytes) are not considered",
     ]
     rule = ("size: random TSL layouts (rank<=3, depth<=3, gaps, offsets, dynamic outer bounds/steps) and no-layout memrefs, "
-            "element types of whole-byte, sub-byte and odd widths (i1 i4 i7 i12 i20 i24 i33 ...; footprint ceil(bits/8)); "
+            "a deliberate family of fully static dense layouts with a non-zero offset; element types of whole-byte, sub-byte and odd widths (i1 i4 i7 i12 i20 i24 i33 ...; footprint ceil(bits/8)); "
             "static/mini: random functions with allocs, casts, view chains, nested uses, 1-2 memories; non-trivial = layout with "
             "gap/dynamic dim, or >=2 placed buffers; distinct by canonical JSON")
 
@@ -748,11 +796,10 @@ class C11(Prop):
             return [] if worst is None else [{"what": f"no-layout memref: element {worst[0]} ends at byte {worst[1]} > size {size}",
                                               "finding": None}]
         dims = case["dims"]
-        # steps as the emitted IR computes them (bytes), tile bounds as declared; for static layouts
-        # additionally the repo's own affine map of the layout
-        flat = out["flat"]
-        it = iter(flat)
-        steps = [[next(it)[1] for _ in t] for t in dims[:len(rt)]]
+        # byte strides as the layout's own step ops compute them at run time (not taken from the IR that
+        # AllocOpRewrite emitted: the size may be computed by any chain of ops, or be a single constant);
+        # tile bounds as declared; for static layouts additionally the repo's own affine map of the layout
+        steps = layout_byte_steps(case, rt)
         decl = [[b for _, b in t] for t in dims[:len(rt)]]
         amap = None
         if all(s is not None and b is not None for t in dims for s, b in t) and len(dims) == len(rt):
@@ -780,7 +827,7 @@ class C11(Prop):
             if amap is not None:
                 a2 = amap.eval(list(idx), [])[0] * el
                 if a2 != addr:
-                    return [{"what": f"address of {idx}: emitted steps give byte {addr}, the layout's affine map {a2}", "finding": None}]
+                    return [{"what": f"address of {idx}: the layout's step ops give byte {addr}, its affine map {a2}", "finding": None}]
             end = case["offset"] * el + addr + el
             if end > size and (worst is None or end > worst[1]):
                 worst = (idx, end)
@@ -883,7 +930,14 @@ class C11(Prop):
         if case["kind"] == "size":
             if case["dims"] is None:
                 return k + ":nolayout"
-            return k + (":dynamic" if any(s is None for s in case["tshape"]) else ":static")
+            if any(s is None for s in case["tshape"]):
+                return k + ":dynamic"
+            span = 1 + sum((b - 1) * st for t in case["dims"] for st, b in t if st is not None and b is not None)
+            total = 1
+            for n in case["tshape"]:
+                total *= n
+            fully_static = all(st is not None and b is not None for t in case["dims"] for st, b in t)
+            return k + (":static-dense-offset" if fully_static and span == total and case["offset"] else ":static")
         if case["mode"] == "auto" and impl_out.get("leftover_allocs") and not impl_out.get("placed"):
             return k + ":nothing-placed"
         reuse = len({(p[0], p[1]) for p in impl_out.get("placed", [])}) < len(impl_out.get("placed", []))
